@@ -351,7 +351,20 @@ def r4_bencode_bounds_discipline(ctx):
     # (d) length-prefixed read: same n for payload and remainder
     bs = defs["decode-byte-string"]
     t = bs.text()
-    ok = "(slice data 0 n)" in t and "(slice data n)" in t and "(int (slice data 0 i))" in t
+    ok = False
+    for lt in L.walk(bs):
+        if L.head(lt) in ("let", "let*") and len(lt.items) > 2 and isinstance(lt.items[1], L.Vec):
+            binds = list(zip(lt.items[1].items[0::2], lt.items[1].items[1::2]))
+            # the names are the function's own: position of the colon, declared length, rest after the colon
+            for nm_i, init_i in binds:
+                if L.head(init_i) != "index-of" or len(init_i.items) < 2:
+                    continue
+                d0, i_ = init_i.items[1].text(), nm_i.text()
+                n_ = next((nm.text() for nm, init in binds if init.text() == f"(int (slice {d0} 0 {i_}))"), None)
+                d1 = next((nm.text() for nm, init in binds if init.text() == f"(slice {d0} (inc {i_}))"), None)
+                if n_ and d1:
+                    body_t = " ".join(b.text() for b in lt.items[2:])
+                    ok = ok or (f"(slice {d1} 0 {n_})" in body_t and f"(slice {d1} {n_})" in body_t)
     ctx.ob("C19.R4", f"{BEN}::decode-byte-string::payload (slice data 0 n), remainder (slice data n)", BEN, bs.line, ok, "" if ok else "payload and remainder are not cut at the same declared length")
     # (d') an empty payload is only ever produced for a declared length of zero: a literal empty byte string
     # (or an `or` fallback around the payload slice) anywhere else turns "the payload has not arrived yet"
